@@ -1,4 +1,5 @@
 import PhyVerif.Model.C13
+import PhyVerif.Model.C13b
 /-! Helper lemmas and full proofs for C13. Statements: `Props/C13.lean`. -/
 namespace PhyVerif.C13.Lemmas
 open PhyVerif PhyVerif.C13
@@ -71,5 +72,186 @@ theorem uuid_rows (src out label : String) (s : Sizes) (files : List (Name × Na
     simp [objectTables, withLabel3] at hm
     rcases hm with hm | hm | hm | hm | hm | hm | hm | hm | hm | hm | hm | hm | hm | hm | hm | hm | hm | hm <;>
       obtain ⟨rfl, rfl⟩ := hm <;> first | rfl | (exfalso; revert hu; simp)
+
+/-! ### Round trip through the loader model (C04) -/
+section Reload
+open PhyVerif.C04
+
+/-- the characters a label puts between a stem and `.npy` -/
+def mid (label : String) : List Char := if label = "" then [] else '.' :: label.toList
+
+theorem labelled_toList (label stem : String) :
+    (labelled label stem).toList = stem.toList ++ (mid label ++ ['.', 'n', 'p', 'y']) := by
+  unfold labelled mid
+  split <;> simp [String.toList_append]
+
+/-- two character lists differ at a position both have -/
+def mismatch : List Char → List Char → Bool
+  | a :: as, b :: bs => a != b || mismatch as bs
+  | _, _ => false
+
+theorem not_prefix_of_mismatch : ∀ (p st rest : List Char), mismatch p st = true →
+    p.isPrefixOf (st ++ rest) = false
+  | [], _, _, h => by simp [mismatch] at h
+  | _ :: _, [], _, h => by simp [mismatch] at h
+  | a :: as, b :: bs, rest, h => by
+    simp only [mismatch, Bool.or_eq_true, bne_iff_ne, ne_eq] at h
+    simp only [List.cons_append, List.isPrefixOf, Bool.and_eq_false_iff, beq_eq_false_iff_ne, ne_eq]
+    rcases h with h | h
+    · exact Or.inl h
+    · exact Or.inr (not_prefix_of_mismatch as bs rest h)
+
+theorem globMatch_false_of_not_prefix (pat name : String)
+    (h : (splitStar pat.toList).1.isPrefixOf name.toList = false) : globMatch pat name = false := by
+  unfold globMatch
+  rcases hs : splitStar pat.toList with ⟨pre, _ | suf⟩
+  · rw [hs] at h
+    simp only [beq_eq_false_iff_ne, ne_eq]
+    intro heq
+    rw [heq] at h
+    have h2 : name.toList.isPrefixOf name.toList = true :=
+      List.isPrefixOf_iff_prefix.mpr (List.prefix_refl _)
+    rw [h2] at h
+    cases h
+  · rw [hs] at h
+    simp only [h, Bool.false_and]
+
+theorem globMatch_true_of_parts (pat name : String) (pre m suf : List Char)
+    (hs : splitStar pat.toList = (pre, some suf)) (hn : name.toList = pre ++ (m ++ suf)) :
+    globMatch pat name = true := by
+  unfold globMatch
+  simp only [hs, hn]
+  have h1 : pre.isPrefixOf (pre ++ (m ++ suf)) = true :=
+    List.isPrefixOf_iff_prefix.mpr (List.prefix_append _ _)
+  have h2 : suf.isSuffixOf (pre ++ (m ++ suf)) = true := by
+    rw [← List.append_assoc]
+    exact List.isSuffixOf_iff_suffix.mpr (List.suffix_append _ _)
+  rw [h1, h2]
+  simp only [List.length_append, Bool.and_self, Bool.true_and, decide_eq_true_eq]
+  omega
+
+theorem gm_lab_false (pat label stem : String)
+    (h : mismatch (splitStar pat.toList).1 stem.toList = true) :
+    globMatch pat (labelled label stem) = false := by
+  apply globMatch_false_of_not_prefix
+  rw [labelled_toList]
+  exact not_prefix_of_mismatch _ _ _ h
+
+theorem gm_lab_true (pat label stem : String)
+    (h : splitStar pat.toList = (stem.toList, some ['.', 'n', 'p', 'y'])) :
+    globMatch pat (labelled label stem) = true :=
+  globMatch_true_of_parts pat _ _ (mid label) _ h (labelled_toList label stem)
+
+theorem ne_of_mismatch (a st rest : List Char) (h : mismatch a st = true) : a ≠ st ++ rest := by
+  intro heq
+  have := not_prefix_of_mismatch a st rest h
+  rw [← heq] at this
+  have h2 : a.isPrefixOf a = true := List.isPrefixOf_iff_prefix.mpr (List.prefix_refl _)
+  rw [h2] at this
+  cases this
+
+theorem lit_beq_labelled (lit label stem : String) (h : mismatch lit.toList stem.toList = true) :
+    (lit == labelled label stem) = false := by
+  simp only [beq_eq_false_iff_ne, ne_eq]
+  intro heq
+  have := congrArg String.toList heq
+  rw [labelled_toList] at this
+  exact ne_of_mismatch _ _ _ h this
+
+theorem labelled_beq_labelled (label s1 s2 : String) (h : mismatch s1.toList s2.toList = true) :
+    (labelled label s1 == labelled label s2) = false := by
+  simp only [beq_eq_false_iff_ne, ne_eq]
+  intro heq
+  have := congrArg String.toList heq
+  rw [labelled_toList, labelled_toList] at this
+  have h2 := not_prefix_of_mismatch _ _ (mid label ++ ['.', 'n', 'p', 'y']) h
+  rw [← this] at h2
+  have h3 : ∀ l r : List Char, l.isPrefixOf (l ++ r) = true := fun l r =>
+    List.isPrefixOf_iff_prefix.mpr (List.prefix_append _ _)
+  rw [h3] at h2
+  cases h2
+
+theorem lookup_spike_times (label : String) (s : Source) :
+    (exportDir label s).lookup "spike_times.npy" = none := by
+  simp (disch := decide) [exportDir, List.lookup_cons, lit_beq_labelled]
+
+theorem read_times (label : String) (s : Source) :
+    readFile (exportDir label s) ["spikes.times*.npy"] = some (vec s.times) := by
+  simp (disch := decide) [readFile, findPath, exportDir, List.find?_cons, gm_lab_true]
+
+theorem read_samples (label : String) (s : Source) :
+    readFile (exportDir label s) ["spikes.samples*.npy"] = some (vec s.samples) := by
+  simp (disch := decide) [readFile, findPath, exportDir, List.find?_cons, List.lookup_cons,
+    gm_lab_false, gm_lab_true, labelled_beq_labelled]
+
+theorem read_amps (label : String) (s : Source) :
+    readFile (exportDir label s) ["amplitudes.npy", "spikes.amps*.npy"] = some (vec s.amps) := by
+  simp (disch := decide) [readFile, findPath, exportDir, List.find?_cons, List.lookup_cons,
+    gm_lab_false, gm_lab_true, labelled_beq_labelled]
+
+theorem read_templates (label : String) (s : Source) :
+    readFile (exportDir label s) ["spike_templates.npy", "spikes.templates*.npy"] =
+      some (vec s.templates) := by
+  simp (disch := decide) [readFile, findPath, exportDir, List.find?_cons, List.lookup_cons,
+    gm_lab_false, gm_lab_true, labelled_beq_labelled]
+
+theorem find_clusters (label : String) (s : Source) :
+    findPath (exportDir label s) ["spike_clusters.npy", "spikes.clusters*.npy"] =
+      some (labelled label "spikes.clusters") := by
+  simp (disch := decide) [findPath, exportDir, List.find?_cons, gm_lab_false, gm_lab_true]
+
+theorem lookup_clusters (label : String) (s : Source) :
+    (exportDir label s).lookup (labelled label "spikes.clusters") = some (vec s.clusters) := by
+  simp (disch := decide) [exportDir, List.lookup_cons, labelled_beq_labelled]
+
+theorem read_channel_map (label : String) (s : Source) :
+    readFile (exportDir label s) ["channel_map.npy", "channels.rawInd*.npy"] =
+      some (vec s.channelMap) := by
+  simp (disch := decide) [readFile, findPath, exportDir, List.find?_cons, List.lookup_cons,
+    gm_lab_false, gm_lab_true, labelled_beq_labelled]
+
+theorem read_positions (label : String) (s : Source) :
+    readFile (exportDir label s) ["channel_positions.npy", "channels.localCoordinates*.npy"] =
+      some ⟨[s.channelMap.length, 2], s.positions.map Cell.num⟩ := by
+  simp (disch := decide) [readFile, findPath, exportDir, List.find?_cons, List.lookup_cons,
+    gm_lab_false, gm_lab_true, labelled_beq_labelled]
+
+theorem scrub_num (sh : List Nat) (l : List Int) :
+    scrub ⟨sh, l.map Cell.num⟩ = ⟨sh, l.map Cell.num⟩ := by
+  simp [scrub]
+
+theorem scrub_vec (l : List Int) : scrub (vec l) = vec l := scrub_num _ l
+
+theorem squeeze_vec (l : List Int) (h : l.length ≠ 1) : squeeze (vec l) = vec l := by
+  simp [squeeze, vec, h]
+
+theorem reload_eq_source (inv : Arr → Arr) (label : String) (s : Source) (h : SourceOK s) :
+    ∃ v d', load inv (exportDir label s) = .ok (v, d') ∧
+      v.times = .stored (vec s.times) ∧ v.samples = .file (vec s.samples) ∧
+      v.spikeClusters = vec s.clusters ∧ v.spikeTemplates = vec s.templates ∧
+      v.amplitudes = some (vec s.amps) ∧ v.channelMap = vec s.channelMap ∧
+      v.channelPositions = ⟨[s.channelMap.length, 2], s.positions.map Cell.num⟩ := by
+  obtain ⟨h1, h2, h3, h4, h5, h6, h8⟩ := h
+  unfold load
+  have e1 : squeeze (vec s.times) = vec s.times := squeeze_vec _ (by omega)
+  have e2 : squeeze (vec s.samples) = vec s.samples := squeeze_vec _ (by omega)
+  have e3 : squeeze (vec s.clusters) = vec s.clusters := squeeze_vec _ (by omega)
+  have e4 : squeeze (vec s.templates) = vec s.templates := squeeze_vec _ (by omega)
+  have e5 : squeeze (vec s.amps) = vec s.amps := squeeze_vec _ (by omega)
+  have e6 : squeeze (vec s.channelMap) = vec s.channelMap := squeeze_vec _ (by omega)
+  have e7 : squeeze ⟨[s.channelMap.length, 2], s.positions.map Cell.num⟩ =
+      ⟨[s.channelMap.length, 2], s.positions.map Cell.num⟩ := by
+    have : s.channelMap.length ≠ 1 := by omega
+    simp [squeeze, this]
+  have e8 : monotone (vec s.times).data = true := h8
+  have e9 : atleast 1 (vec s.channelMap) = vec s.channelMap := rfl
+  have e10 : atleast 2 (⟨[s.channelMap.length, 2], s.positions.map Cell.num⟩ : Arr) =
+      ⟨[s.channelMap.length, 2], s.positions.map Cell.num⟩ := rfl
+  simp only [lookup_spike_times, read_times, read_samples, read_amps, read_templates, find_clusters,
+    lookup_clusters, read_channel_map, read_positions, scrub_vec, scrub_num, pure_bind, e1, e2, e3,
+    e4, e5, e6, e7, e8, e9, e10, Bool.not_true, Bool.false_eq_true, if_false, Option.map_some]
+  exact ⟨_, _, rfl, rfl, rfl, rfl, rfl, rfl, rfl, rfl⟩
+
+end Reload
 
 end PhyVerif.C13.Lemmas
